@@ -83,9 +83,11 @@ pub fn run_c03(case: &Value, em: &mut Emitter) {
 
 /// random well-formed flat model (no range tokens: those are C07)
 pub fn gen_model(rng: &mut Rng, size: usize, with_range: bool) -> Value {
-    let nsrc = rng.below(5);
-    let nnm = rng.below(5);
-    let ntok = rng.below((size * 12) as u64 + 1);
+    // one case in twelve is LARGE: hundreds of tokens, more than 64 sources and names, long lines
+    let large = rng.chance(1, 25);
+    let nsrc = if large { 60 + rng.below(30) } else { rng.below(5) };
+    let nnm = if large { 60 + rng.below(30) } else { rng.below(5) };
+    let ntok = if large { 150 + rng.below(250) } else { rng.below((size * 12) as u64 + 1) };
     let mut toks: Vec<Value> = vec![];
     let (mut line, mut col) = (0i64, 0i64);
     for _ in 0..ntok {
